@@ -140,7 +140,8 @@ class Harness(object):
         if 'variants' in t:
             d = tm.atom('%s@%d.discr' % (name, base))
             root.atoms[d] = AtomInfo(argi, base, 0, 'discr', name, through_ptr, root_ty)
-            out.discr[(0, tyid)] = mk('discr_atom', d)
+            dvals = [int(v['discr']) for v in t['variants']['vs']]
+            out.discr[(0, tyid)] = mk('discr_atom', d, max(dvals) if min(dvals) >= 0 else -1)
             vs = [v for v in t['variants']['vs'] if v['fields']]
             if len(vs) > 1:
                 raise Abort('symbolic multi-payload enum %s' % t['n'])
